@@ -550,6 +550,11 @@ func init() {
 			return "", err
 		}
 		sb.WriteString(r8)
+		r9, err := c04Round9(repo)
+		if err != nil {
+			return "", err
+		}
+		sb.WriteString(r9)
 		return sb.String(), nil
 	}})
 }
